@@ -113,16 +113,21 @@ def parse_obs(obs):
         for e in parts["V"].split("."):
             ev.append((e[:-1], e[-1]))
     tlog = []
+    tstamps = []
     for th in parts.get("T", "").split(";"):
         calls = []
+        stamps = []
         if th:
             for c in th.split(","):
                 m, _, r = c.partition("=")
+                r, _, st = r.partition("@")
                 calls.append((m, r))
+                stamps.append(tuple(int(x) for x in st.split(".")) if st else None)
+        tstamps.append(stamps)
         tlog.append(calls)
     res = parts.get("R", "").split(";")
     dg = [unhx(d) for d in parts["D"].split(";")] if parts.get("D") else []
-    return {"events": ev, "tlog": tlog, "res": res, "dg": dg, "notes": parts.get("H", "")}
+    return {"events": ev, "tlog": tlog, "stamps": tstamps, "res": res, "dg": dg, "notes": parts.get("H", "")}
 
 
 def check_events(o, nthreads):
@@ -213,6 +218,40 @@ def clauses(case, o):
     for k in seen:
         if k in ident and not ident[k][1].startswith("k") and len(ident[k][0]) + 1 > cap:
             bad.append("metric of thread %d (call %d) left although its emit reported an error" % k)
+    # a flush that returned Ok: every metric whose emit had returned Ok before the flush was called has been written by
+    # the time the flush returns (stamps: global clock at start/end of each call, underlying writes made so far)
+    if not faults:
+        where = {}                # identity -> index of the datagram it left in
+        usedp = set()
+        for i, d in enumerate(o["dg"]):
+            if d in big and big[d]:
+                cand = [k for k in big[d] if k not in usedp] or big[d]
+                where.setdefault(cand[0], i)
+                usedp.add(cand[0])
+                continue
+            for k in segment(d, lines, usedp) or []:
+                where.setdefault(k, i)
+                usedp.add(k)
+        flushes = []
+        for th, calls in enumerate(o["tlog"]):
+            for j, (m, r) in enumerate(calls):
+                st = o["stamps"][th][j]
+                if m == "F" and r == "k0" and st:
+                    flushes.append((st, th))
+        for (f0, f1, fw), fth in flushes:
+            done = False
+            for th, calls in enumerate(o["tlog"]):
+                for j, (m, r) in enumerate(calls):
+                    st = o["stamps"][th][j]
+                    if m != "F" and r.startswith("k") and st and st[1] < f0 and where.get((th, j), 10 ** 9) >= fw:
+                        bad.append("flush by thread %d returned Ok while the metric of thread %d (call %d), acknowledged "
+                                   "before the flush was called, had not been written" % (fth, th, j))
+                        done = True
+                        break
+                if done:
+                    break
+            if done:
+                break
     # per-thread order of the buffered (fitting) metrics
     for th in range(len(o["tlog"])):
         mine = [k[1] for k in seen if k[0] == th and k in lines]
@@ -271,6 +310,7 @@ def check_C12(tier, seed):
         return rep.finish()
     obs = []
     failures = []
+    broken = []      # the trace cannot be aligned with the calls: atomicity of the calls cannot be validated
     mcases = []
     for c, raw in zip(cases, impl):
         if raw.startswith("HARNESS-PANIC"):
@@ -284,7 +324,9 @@ def check_C12(tier, seed):
         prob, order = check_events(o, nth)
         for b in clauses(c, o):
             failures.append((len(c), c, raw, b))
-        if prob:
+        if prob and "sink calls but entered" in prob:
+            broken.append((len(c), c, raw, prob))
+        elif prob:
             failures.append((len(c) + 10 ** 6, c, raw, "critical section: " + prob))
         if "timeout" in o["notes"] or "droppanic" in o["notes"]:
             failures.append((len(c), c, raw, "a call did not return / the final drop panicked (%s)" % o["notes"]))
@@ -308,7 +350,16 @@ def check_C12(tier, seed):
                             {"bin": "conc", "case": c, "implementation": raw[:4000], "clause": msg,
                              "how": "build/target/release/harness conc <file with the case line> (schedules are forced where the "
                                     "plan says t+u; free runs may need repeating)"})
-    if dis and not failures:
+    if broken and not failures:
+        broken.sort()
+        _, c, raw, prob = broken[0]
+        rep.violation_noinput(
+            "correspondence broken on %d cases: the critical sections observed through hook H2 do not match the calls made "
+            "(%s); that every emit/flush is one atomic step under the sink's mutex - what the theorems of Props/C12.v assume - "
+            "can no longer be validated" % (len(broken), prob),
+            {"correspondence": "one critical section (sink.cs.enter .. sink.cs.exit) per emit/flush on the shared buffered sink",
+             "theorems": rep.cov.get("theorems", []), "first_disagreeing_case": c, "implementation": raw[:4000]})
+    if dis and not failures and not broken:
         dis.sort()
         _, c, raw, mc, mo = dis[0]
         rep.violation_noinput(
